@@ -12,7 +12,7 @@ package rsyncd
 //@   allows[C07] fswrite(h) if module == nil || module.Writable
 //@   allows[C06] srcread(h)
 //@   allows[C06] fsread(h) if isSourceFS(h)
-//@   allows[C06] pathread(p) if module == nil || p == module.Path
+//@   allows[C06] pathread(p) if module == nil || p == module.Path || module.Path == "/"
 
 // ---------------------------------------------------------------- effects
 //@ spec func destPath(module: *rsyncd.Module, paths: []string): Str = ite(module == nil, paths[0], module.Path)
@@ -24,7 +24,7 @@ package rsyncd
 //      servers have no module and are outside C07).
 //@ func (*rsyncd.Server).handleConnReceiver
 //@   nullable module
-//@   allows[C05] pathwrite(p) if p == destPath(module, paths)
+//@   allows[C05] pathwrite(p) if p == destPath(module, paths) || isProcFd(p) && underDest(procFdRoot(p), destPath(module, paths))
 //@   allows[C05] pathread(p) if p == destPath(module, paths)
 //@   allows[C05] fswrite(h) if underDest(h, destPath(module, paths))
 //@   allows[C05] fsread(h) if underDest(h, destPath(module, paths))
@@ -35,7 +35,7 @@ package rsyncd
 //@   nullable module
 //@   allows[C06] srcread(h)
 //@   allows[C06] fsread(h) if isSourceFS(h)
-//@   allows[C06] pathread(p) if module == nil || p == module.Path
+//@   allows[C06] pathread(p) if module == nil || p == module.Path || module.Path == "/"
 //@   allows[C10] filedata if opts.dry_run == 0
 
 //@ func rsyncd.validateModule
